@@ -380,7 +380,7 @@ class Ref:
         if kind == 'beg':
             if p == 0:
                 return None if self.notbol else p
-            return p if s[p - 1] == 10 else None
+            return p if s[p - 1] == 10 and p < n else None
         if kind == 'end':
             if p == n:
                 return None if self.noteol else p
@@ -445,9 +445,7 @@ def ref_find(trees, line, flg, nsub, icase=False):
     (the pattern's own wrapper group first).  Returns (set, [(so,eo)]*nsub) for the leftmost start
     and first pattern / first parse, ignoring the start at len(line); or (-1, None)."""
     r = Ref(line, icase, bool(flg & RE_NOTBOL), bool(flg & RE_NOTEOL))
-    for st in boundaries(line):
-        if st >= len(line):
-            break
+    for st in (boundaries(line) if line else []):      # regexec tries no start at all on an empty subject
         for i, t in enumerate(trees):
             for q, mk in r.m(t, st, {}):
                 return i, st, spans(mk, t[1], nsub)
